@@ -690,6 +690,10 @@ func aprMsgFor(m *api.Message, c, cb int) *api.Message {
 		return m
 	}
 	cp := *m
+	if m.RequestHeader != nil {
+		hd := *m.RequestHeader // ... header included (the payload objects stay: the data change event carries them)
+		cp.RequestHeader = &hd
+	}
 	return &cp
 }
 
